@@ -346,6 +346,9 @@ func DeserializeData(s []byte, uncompress bool) ([]byte, CompressionFormat, erro
 		}
 		return data, compression, nil
 	case LZ4:
+		if len(cdata) < 4 {
+			return nil, 0, fmt.Errorf("lz4 value is too short (%d bytes) to hold its size prefix", len(cdata))
+		}
 		origSize := binary.LittleEndian.Uint32(cdata[0:4])
 		var data []byte
 		if origSize == 0 { // support legacy native Go lz4 stored values
